@@ -147,7 +147,7 @@ def rsPack : Pack Bool where
   plane := rsPlane
   preds := rsPreds
   releasedFull := rsPreds.released
-  guards := fun br ex => if ex ∧ ¬ br.deleting then ["guard:replicaSetRef"] else if ex then ["guard:replicaSetRef"] else []
+  guards := fun _ ex => if ex then ["guard:stsPlaneForeignKind"] else []
   planePanicOK := fun _ _ => false
   decode := fun j => fBool j "exists"
   encode := fun j ex => setKeys j [("exists", boolJ ex)]
@@ -247,8 +247,15 @@ def handle : Handler := fun op inp impl => do
       s!"state:{RV.Drv.Executor.bstateStr br.status.batchState}", if br.deleting then "deleting" else "live",
       if br.partition.isSome then "partitioned" else "nopartition", if br.rollbackAnno then "rollbackAnno" else "noRollbackAnno",
       s!"hash:{RV.Drv.Executor.hashStr br.status.hash}"]
+    let implPanic := (jopt impl "panic").isSome
     let mismatch : R OpResult :=
       return { model := .null, holds := [], tags := "mismatch:dispatch" :: baseTags }
+    -- a CloneSet / Deployment / DaemonSet that no arm of `getReleaseController` serves under this style is handed to the
+    -- StatefulSet-like control (finding `stsPlaneForeignKind`): not modelled, judged on "does not crash" alone
+    let foreign : R OpResult :=
+      return { model := .null, holds := [("C09.x_no_panic", !implPanic)],
+               tags := ["plane:stsLike(foreign kind)", "guard:stsPlaneForeignKind", if k > 0 then "fault" else "nofault"] ++
+                       (if implPanic then ["impl:panic"] else []) ++ baseTags }
     match dispatch kind style enable with
     | none =>
       -- no plane: the initialised status is persisted, nothing else
@@ -280,6 +287,7 @@ def handle : Handler := fun op inp impl => do
     | some .stsLike =>
       if shape = "sts" ∧ (kind = .nativeSts ∨ kind = .advancedSts) then runPack stsPack br worldIn k impl baseTags
       else if shape = "rs" ∧ kind = .replicaSet then runPack rsPack br worldIn k impl baseTags
+      else if kind = .cloneSet ∨ kind = .deployment ∨ kind = .daemonSet then foreign
       else mismatch
     | some .depCanary => if shape = "canary" then runPack canaryPack br worldIn k impl baseTags else mismatch
     | some .csBlueGreen => if shape = "bg" then runPack (bgPack .cloneSet) br worldIn k impl baseTags else mismatch
